@@ -26,5 +26,8 @@ for _ts, _sp in ((60, 15), (44, 11)):                                        # o
     _b = 'as h_retarget with timespan %d s, spacing %d s (clamps %d s / %d s, divisor %d)' % (_ts, _sp, _ts // 4, 4 * _ts, _ts)
     _h.update({'name': 'h_retarget%d' % _ts, 'tiers': ['thorough'], 'rungs': {'thorough': [{'defines': ['TS=%d' % _ts], 'bound': _b, 'timeout': 900}]}})
     HARNESSES.append(_h)
+_h = _copy.deepcopy(HARNESSES[2])
+_h.update({'name': 'h_retarget_bits', 'tiers': ['thorough'], 'rungs': {'thorough': [{'defines': ['MOREBITS'], 'bound': 'as h_retarget with starting difficulties 0x1e008000 (compact sign-bit normalisation), 0x1f280000 (a little over a quarter of the limit), 0x1e7fffff', 'timeout': 900}]}})
+HARNESSES.append(_h)
 EXPLANATION = 'Header acceptance of the real BTC tree is compared on every path with an independent implementation of the contextual rules written over plain integers.'
 ASSUMPTIONS = ['h_hdr crosses no retarget boundary (interval 2016); h_retarget decides the boundary arithmetic on interval 4 with case-split timestamps (timespan 40 s; thorough also 60 s and 44 s; mainnet-size intervals use the same code with other parameters)', 'hash = 3 symbolic high bytes + id; SHA-256 not encoded', 'VBK retarget arithmetic (regtest does not retarget) and checkVbkBlockPlausibility are not covered']
